@@ -46,6 +46,23 @@ type Rule struct {
 	perConfig  map[string]int
 	undecided  []string
 	run        *Run
+
+	// positive controls: violations located in a control file
+	// (zz_voicheck_control) are required, not reported.
+	needControl bool
+	nControl    int
+	controls    map[string]bool
+}
+
+// RequireControl declares that the rule's expected violation count on the
+// real tree is zero and that at least n distinct positive-control constructs
+// must be reported by it on every run.
+func (ru *Rule) RequireControl(n int) *Rule {
+	ru.needControl = true
+	if n > ru.nControl {
+		ru.nControl = n
+	}
+	return ru
 }
 
 // Run is one property run.
@@ -135,6 +152,15 @@ func (ru *Rule) OKN(construct string, n int) {
 // Fail records a violated obligation.
 func (ru *Rule) Fail(pos, construct, msg string, detail any) {
 	cfg := ru.run.Config()
+	if strings.Contains(pos, "zz_voicheck_control") || strings.Contains(construct, "oicheckControl") {
+		ru.mu.Lock()
+		if ru.controls == nil {
+			ru.controls = map[string]bool{}
+		}
+		ru.controls[construct] = true
+		ru.mu.Unlock()
+		return
+	}
 	ru.mu.Lock()
 	ru.instances++
 	ru.constructs[construct] = true
@@ -249,6 +275,7 @@ type ruleEvidence struct {
 	Instances   int            `json:"instances"`
 	Discharged  int            `json:"discharged"`
 	ExpectedMin int            `json:"expected_min"`
+	Controls    []string       `json:"positive_controls_fired,omitempty"`
 	Constructs  int            `json:"distinct_constructs"`
 	PerConfig   map[string]int `json:"per_config,omitempty"`
 }
@@ -265,6 +292,11 @@ func (r *Run) Finish() int {
 			r.viols[key] = &Violation{Property: r.Prop, Rule: ru.ID + "/vacuity", Configs: r.Configs, Pos: "-", Construct: "rule " + ru.ID,
 				Msg: fmt.Sprintf("rule matched %d instances, fewer than the %d confirmed by hand: the rule no longer sees the code it was written for", ru.instances, ru.ExpectedMin)}
 			r.order = append(r.order, key)
+		}
+	}
+	for _, ru := range r.rules {
+		if ru.needControl && len(ru.controls) < ru.nControl {
+			r.fatal = append(r.fatal, fmt.Sprintf("rule %s: only %d of %d positive controls fired (the rule is blind)", ru.ID, len(ru.controls), ru.nControl))
 		}
 	}
 	findings := loadFindings()
@@ -315,7 +347,12 @@ func (r *Run) Finish() int {
 		obl += ru.instances
 		dis += ru.discharged
 		distinct += len(ru.constructs)
-		res = append(res, ruleEvidence{ru.ID, ru.Desc, ru.instances, ru.discharged, ru.ExpectedMin, len(ru.constructs), ru.perConfig})
+		var ctl []string
+		for c := range ru.controls {
+			ctl = append(ctl, c)
+		}
+		sort.Strings(ctl)
+		res = append(res, ruleEvidence{ru.ID, ru.Desc, ru.instances, ru.discharged, ru.ExpectedMin, ctl, len(ru.constructs), ru.perConfig})
 	}
 	samples := r.samples
 	if len(samples) == 0 {
